@@ -6,6 +6,7 @@ import (
 	"flag"
 	"fmt"
 	"math/rand"
+	"os"
 	"sort"
 	"strconv"
 	"strings"
@@ -149,7 +150,7 @@ func (r *masterRun) emitState() {
 		"assign": assignJSON(st.ShardAssignments), "repoassign": assignJSON(repoAssign), "npending": len(r.pending)})
 }
 
-func masterHistory(rec *trace.Recorder, rng *rand.Rand, steps, nnodes int, h int, sum *trace.Summary) {
+func masterHistory(rec *trace.Recorder, rng *rand.Rand, steps, nnodes int, h int, sum *trace.Summary, scripted []string) {
 	repo := &memRepo{kv: map[string][]byte{}}
 	ctx, cancel := context.WithCancel(context.Background())
 	defer cancel()
@@ -160,13 +161,55 @@ func masterHistory(rec *trace.Recorder, rng *rand.Rand, steps, nnodes int, h int
 			run.pending = append(run.pending, &discovery.Event{Type: discovery.ShardAssignmentChanged, Key: key, Value: append([]byte{}, val...)})
 		}
 	}
-	rec.Reset(trace.F{"mode": "master", "h": h, "nodes": nnodes})
+	rec.Reset(trace.F{"mode": "master", "h": h, "nodes": nnodes, "generated": scripted != nil})
 	dbs := []string{"d1", "d2"}
 	script := []string{}
+	if scripted != nil {
+		steps = len(scripted)
+	}
 	for i := 0; i < steps; i++ {
 		c := rng.Intn(100)
+		// leg R: the step is the next word of a behaviour TLC generated from MasterGen; nothing is random
+		var w []string
+		if scripted != nil {
+			w = strings.Split(scripted[i], ":")
+		}
+		argn := func(k int) int { n, _ := strconv.Atoi(w[k]); return n }
 		switch {
-		case len(run.pending) > 0 && c < 50:
+		case w != nil && w[0] == "process" && len(run.pending) == 0:
+			sum.Unresolved = append(sum.Unresolved, fmt.Sprintf("generated behaviour %d step %d: process without a pending event", h, i))
+			return
+		case w != nil && (w[0] == "up" || w[0] == "down"):
+			n := argn(1)
+			key := constants.GetStorageLiveNodePath(strconv.Itoa(n))
+			if w[0] == "up" {
+				node := models.StatefulNode{ID: models.NodeID(n), StatelessNode: models.StatelessNode{HostIP: fmt.Sprintf("1.1.1.%d", n), GRPCPort: 2891}}
+				data, _ := json.Marshal(&node)
+				_ = repo.Put(ctx, key, data)
+				run.pending = append(run.pending, &discovery.Event{Type: discovery.NodeStartup, Key: key, Value: data})
+				rec.Emit("NodeUp", trace.F{"node": n})
+			} else {
+				_ = repo.Delete(ctx, key)
+				run.pending = append(run.pending, &discovery.Event{Type: discovery.NodeFailure, Key: key})
+				rec.Emit("NodeDown", trace.F{"node": n})
+			}
+			script = append(script, scripted[i])
+		case w != nil && w[0] == "putdb":
+			cfg := &models.Database{Name: w[1], NumOfShard: argn(2), ReplicaFactor: argn(3), Option: &option.DatabaseOption{}}
+			run.dbCfg[w[1]] = cfg
+			data, _ := json.Marshal(cfg)
+			run.pending = append(run.pending, &discovery.Event{Type: discovery.DatabaseConfigChanged, Key: constants.GetDatabaseConfigPath(w[1]), Value: data})
+			rec.Emit("PutDatabase", trace.F{"db": w[1], "shards": cfg.NumOfShard, "rf": cfg.ReplicaFactor})
+			script = append(script, scripted[i])
+		case w != nil && w[0] == "dropdb":
+			delete(run.dbCfg, w[1])
+			run.pending = append(run.pending, &discovery.Event{Type: discovery.DatabaseConfigDeletion, Key: constants.GetDatabaseConfigPath(w[1])})
+			rec.Emit("DropDatabase", trace.F{"db": w[1]})
+			script = append(script, scripted[i])
+		case w != nil && w[0] != "process":
+			sum.Unresolved = append(sum.Unresolved, "generated behaviour: unknown step "+scripted[i])
+			return
+		case (w != nil && w[0] == "process") || (len(run.pending) > 0 && c < 50):
 			e := run.pending[0]
 			run.pending = run.pending[1:]
 			rec.Emit("Process", trace.F{"t": e.Type.String()})
@@ -230,6 +273,7 @@ func masterMain(args []string) int {
 	out := fs.String("out", "master.ndjson", "trace output")
 	seed := fs.Int64("seed", 1, "seed")
 	nh := fs.Int("histories", 50, "histories")
+	scripts := fs.String("scripts", "", "leg R: JSON file with behaviours generated by TLC from MasterGen (list of lists of steps); replaces the random histories")
 	steps := fs.Int("steps", 60, "steps per history")
 	_ = fs.Parse(args)
 	rec, err := trace.New(*out)
@@ -239,8 +283,23 @@ func masterMain(args []string) int {
 	}
 	rng := rand.New(rand.NewSource(*seed))
 	sum := &trace.Summary{Module: "Master", Extra: map[string]any{}}
+	if *scripts != "" {
+		var gen [][]string
+		b, err := os.ReadFile(*scripts)
+		if err == nil {
+			err = json.Unmarshal(b, &gen)
+		}
+		if err != nil {
+			fmt.Println("scripts:", err)
+			return 2
+		}
+		for h, sc := range gen {
+			masterHistory(rec, rand.New(rand.NewSource(int64(h))), len(sc), 5, 1000+h, sum, sc)
+		}
+		*nh = 0
+	}
 	for h := 0; h < *nh; h++ {
-		masterHistory(rec, rand.New(rand.NewSource(rng.Int63())), *steps, 2+h%4, h, sum)
+		masterHistory(rec, rand.New(rand.NewSource(rng.Int63())), *steps, 2+h%4, h, sum, nil)
 	}
 	_ = rec.Close()
 	sum.Traces, sum.Events = rec.Counts()
